@@ -30,6 +30,12 @@ documented table.  About the table re-extracted from `src/gates/composite.rs` on
 theorem dispatch_table_eq : Q1t.Gen.fromStringTable = documentedTable :=
   Q1t.Proofs.FromString.gen_dispatch_documented
 
+/-- The string literals of the arms are pairwise distinct, so the `match` is a lookup table: the order of its arms in the
+source is semantically irrelevant (the generator emits them sorted by literal, which is what makes `dispatch_table_eq`
+independent of that order without weakening it). -/
+theorem dispatch_keys_distinct : (Q1t.Gen.fromStringTable.map (·.1)).Nodup :=
+  Q1t.Proofs.FromString.gen_keys_distinct
+
 /-- The regular expressions of `parse_gate_name/args/bits` are, character for character, the modelled ones. -/
 theorem patterns_as_modelled : Q1t.Gen.fromStringPatterns = modelledPatterns := by decide +kernel
 
